@@ -323,11 +323,14 @@ Definition eval_round (h : Z -> chandef -> list Z) (cfgs : list cfg) (a : acc) (
       let c03 := c03_reports_ok (c_pver cf) last0 (rd_reports rd) in
       let last1 := fold_left (fun m r => <[r_chan r := r_ts r]> m) (rd_reports rd) last0 in
       (* C04 *)
+      (* a channel voted out (see `removed` above for which removals count) loses its adopted validity start, also when
+         the votes arrive in the promotion round itself (C04_handover_start: ~ voted_out at the promotion event) *)
       let adopted0 : option (gmap Z Z) :=
-        if promoted then (match find (fun p => match ob_att (fst p) with GoodAttest _ => true | _ => false end) obs with
-                          | Some (ob, _) => match ob_att ob with GoodAttest va => Some va | _ => None end
-                          | None => None end)
-        else option_map (fun m => foldr delete m removed) (is_adopted st) in
+        option_map (fun m => foldr delete m removed)
+          (if promoted then (match find (fun p => match ob_att (fst p) with GoodAttest _ => true | _ => false end) obs with
+                             | Some (ob, _) => match ob_att ob with GoodAttest va => Some va | _ => None end
+                             | None => None end)
+           else is_adopted st) in
       let c04_succ :=
         (* before promotion only specimen reports; the first non-specimen report of an adopted channel starts there *)
         forallb (fun r =>
